@@ -20,6 +20,11 @@ def run(ck: Checker):
     ck.rule('C19.SUBC', 'replace_subcircuit raises ReplaceSubcircuitError/validation errors on each documented precondition before the first mutation; external users and outputs are saved before the block is removed and restored after re-insertion; exit through the cycle check')
     ck.rule('C19.REMOVE', 'remove_gate validates existence and absence of users before _remove_gate, which drops the label from outputs, inputs, index and blocks')
 
+    ck.rule('C19.HIST', 'rename_gate, replace_inputs, replace_subcircuit (equivalent replacements of several shapes, label clashes, missing outputs) and remove_gate inside seeded histories of public mutations folded on instances of the repository\'s Circuit class: well-formed circuit after every call that returns, truth table kept by rename / replace_subcircuit, remaining inputs in order after replace_inputs, a removed gate leaves the outputs (shared with C02.HIST)')
+    from .. import history_fold
+    history_fold.fold_histories(ck, 'C19.HIST')
+    history_fold.fold_replace_cases(ck, 'C19.SUBC')
+    ck.floor('C19.HIST', 12)
     fold_primitives(ck, den, R='C19.RENAME', which=('rename', 'block'))
     ck.floor('C19.RENAME', 10)
     fold_primitives(ck, den, R='C19.INPUTS', which=('replace_inputs',))
@@ -34,16 +39,28 @@ def run(ck: Checker):
     eff = Effects(repo)
     muts = eff.mutators(CIRCUIT, 'Circuit')
     private = {n for n in muts if n.startswith('_') and not n.startswith('__')}
-    rg = m.func('Circuit.remove_gate')
-    have = _validators_before(rg, rg.args.args[1].arg, _first_write_line_node(rg, private), private)
-    ck.check({'exists', 'nousers'} <= have, 'C19.REMOVE', m, rg, 'remove_gate refuses a missing gate and a gate that still has users',
-             f'validations before _remove_gate: {sorted(have)}', construct='remove_gate validation')
-    rets = [n for n in ast.walk(rg) if isinstance(n, ast.Return)]
-    ck.check(len(rets) == 1 and norm(rets[0].value) == f'self._remove_gate({rg.args.args[1].arg})', 'C19.REMOVE', m, rg,
-             'remove_gate removes exactly the validated gate', f'returns `{norm(rets[0].value) if rets else None}`', construct='remove_gate delegation')
+    # remove_gate refuses a missing gate / a gate with users: folded
+    from .. import circuit_model as _cm
+    Mh = fold_primitives(ck, den, R='C19.REMOVE', which=())
+    for victim, want in (('nope', 'raise'), ('g1', 'raise'), ('g4', None)):
+        c = Mh.new_circuit(_cm.BASE_SPEC, _cm.BASE_OUTPUTS, _cm.BASE_BLOCKS)
+        pre = _cm.snapshot(c)
+        _, err = Mh.call(c, 'remove_gate', victim)
+        good = (bool(err) and _cm.snapshot(c) == pre) if want else (not err and victim not in c._d['_gates'] and victim not in c._d['_outputs'] and not _cm.invariant_problems(c))
+        ck.check(good, 'C19.REMOVE', m, m.func('Circuit.remove_gate'), f'remove_gate({victim!r}) ' + ('is refused without touching the circuit' if want else 'removes the unused gate from the gate map and the outputs'),
+                 f'{err or "returned normally"}; state {"unchanged" if _cm.snapshot(c) == pre else "changed"}', construct=f'remove_gate({victim}) folded')
+    with ck.soft('C19.HIST / the folds above'):
+        rg = m.func('Circuit.remove_gate')
+        have = _validators_before(rg, rg.args.args[1].arg, _first_write_line_node(rg, private), private)
+        ck.check({'exists', 'nousers'} <= have, 'C19.REMOVE', m, rg, 'remove_gate refuses a missing gate and a gate that still has users',
+                 f'validations before _remove_gate: {sorted(have)}', construct='remove_gate validation')
+        rets = [n for n in ast.walk(rg) if isinstance(n, ast.Return)]
+        ck.check(len(rets) == 1 and norm(rets[0].value) == f'self._remove_gate({rg.args.args[1].arg})', 'C19.REMOVE', m, rg,
+                 'remove_gate removes exactly the validated gate', f'returns `{norm(rets[0].value) if rets else None}`', construct='remove_gate delegation')
     ck.floor('C19.REMOVE', 7)
 
-    subc_rules(ck, private)
+    with ck.soft('C19.HIST (replace_subcircuit inside folded histories)'):
+        subc_rules(ck, private)
     ck.assume('truth-table preservation of replace_subcircuit (functional equivalence of the replacement) is not decided')
 
 
